@@ -222,7 +222,7 @@ def run(ctx, deep, model_ok):
             ctx.broken.append(('correspondence-broken', 'E table: ' + e))
         for i in failing[:3]:
             c = {k: v for k, v in cases[idx[i]].items() if not k.startswith('_')}
-            ctx.violation('failing-input', 'the kernels translated from edge/gfa2/{alignment_type,references,to_gfa1}.py '
+            ctx.disagree('the kernels translated from edge/gfa2/{alignment_type,references,to_gfa1}.py '
                           '(about which Props/C11.v is proved) and the running implementation file this E line differently',
                           c, python=py_of(cases[idx[i]]))
         ctx.notes['E_cases_compared_in_coq'] = len(terms)
@@ -255,7 +255,7 @@ def run(ctx, deep, model_ok):
             for e in errs:
                 ctx.broken.append(('correspondence-broken', name + ' table: ' + e))
             for i in failing[:2]:
-                ctx.violation('failing-input', 'generated %s kernel and implementation disagree' % name, {'kind': name, 'term': terms[i]})
+                ctx.disagree('generated %s kernel and implementation disagree' % name, {'kind': name, 'term': terms[i]})
     # generated graphs
     n = 400 if deep else 80
     for i in range(n):
